@@ -72,6 +72,14 @@ def fieldsOfArgs : List Bytes → Fields → Fields
   | k :: v :: r, acc => fieldsOfArgs r (insertField k v acc)
   | _, acc => acc
 
+/-- the pairs `f v f v …` as given (a trailing odd argument cannot occur: the handler checks the arity) -/
+def pairsOfArgs : List Bytes → Fields
+  | k :: v :: r => (k, v) :: pairsOfArgs r
+  | _ => []
+
+/-- a list of pairs as the map it collapses to (canonical form) -/
+def canonFields (f : Fields) : Fields := f.foldl (fun acc p => insertField p.1 p.2 acc) []
+
 /-- Where the pinned tree deviates from the property; `true` = prescribed behaviour. -/
 structure Quirks where
   /-- `range`: an end bound below every entry (`Err(0)`) selects nothing (`true`) /
@@ -83,12 +91,24 @@ structure Quirks where
   /-- ID text: empty or overflowing components are refused (`true`) /
       empty reads as 0 and digits wrap modulo 2^64 (`false`, `parse_u64_fast`). -/
   parseChecked : Bool
+  /-- SAVE + restart: the dump carries the stream's last ID and the loader restores it (`true`) /
+      only the present entries are written, so the last ID falls back to the greatest present ID,
+      0-0 for an emptied stream (`false`, rdb.rs stream writer/loader). -/
+  persistLastId : Bool := false
+  /-- an entry's pairs are a list in the order given, repeated names kept (`true`) /
+      a `HashMap`: a repeated name keeps its last value, the order is the hasher's (`false`). -/
+  fieldsList : Bool := false
+  /-- `XREAD COUNT 0` means no limit (`true`) / returns nothing (`false`, `handle_xread`). -/
+  readCountZeroAll : Bool := false
+  /-- IDs without sequence number (`5` = `5-0`, as a range end `5-18446744073709551615`) and exclusive
+      range bounds (`(5-0`) are understood (`true`) / refused (`false`, `StreamId::from_string`). -/
+  idIncomplete : Bool := false
   deriving DecidableEq, Repr
 
 /-- the tree as pinned -/
-def pinned : Quirks := ⟨false, false, false⟩
-/-- all three repaired -/
-def fixed : Quirks := ⟨true, true, true⟩
+def pinned : Quirks := ⟨false, false, false, false, false, false, false⟩
+/-- everything repaired -/
+def fixed : Quirks := ⟨true, true, true, true, true, true, true⟩
 
 /-! ### `binary_search_by(|e| e.id.cmp(t))` -/
 
@@ -258,6 +278,21 @@ def trimByMinId (s : Stream) (m : Id) : Stream × Nat :=
   if k = 0 then (s, 0)
   else ({ s with entries := s.entries.drop k, length := s.length - k }, k)
 
+/-! ### SAVE + restart -/
+
+/-- the RDB loader: a fresh stream, the dump's entries re-added in file order with `xadd_with_id`
+    (an entry that is refused is dropped) -/
+def rebuild (es : List Entry) : Stream :=
+  es.foldl (fun acc e => (addWithId e.1 e.2 acc).1) Stream.new
+
+/-- `Stream::raise_last_id`: only ever moves up; the generator state follows -/
+def raiseLastId (s : Stream) (id : Id) : Stream :=
+  if s.lastId < id then { s with lastId := id, atomMs := id.ms, atomSeq := id.seq } else s
+
+/-- SAVE (the present entries; with the repair also the last ID), stop, start, load -/
+def restart (q : Quirks) (s : Stream) : Stream :=
+  if q.persistLastId then raiseLastId (rebuild s.entries) s.lastId else rebuild s.entries
+
 /-! ### Histories -/
 
 inductive Op where
@@ -266,14 +301,17 @@ inductive Op where
   | del (ids : List Id)
   | trimCount (n : Nat)
   | trimMinId (m : Id)
+  | restart
   deriving Repr
 
-/-- A state together with the (ghost) record of the run: every accepted XADD in order, and whether
-    some auto ID was generated at `seq = 2^64-1` without clock progress. -/
+/-- A state together with the (ghost) record of the run: every accepted XADD in order, whether
+    some auto ID was generated at `seq = 2^64-1` without clock progress, and whether some restart
+    lost the last ID (came back with a smaller one). -/
 structure Run where
   st : Stream
   added : List Entry
   wrapped : Bool
+  lost : Bool := false
   deriving Repr
 
 /-- the one situation in which `generate_next_atomic` has no greater sequence number left -/
@@ -282,17 +320,18 @@ def wrapsAt (now : Nat) (s : Stream) : Bool := decide (now ≤ s.atomMs) && deci
 def step (q : Quirks) (r : Run) : Op → Run
   | .addAuto now f =>
     match xaddAuto q now f r.st with
-    | (st', some id) => ⟨st', r.added ++ [(id, f)], r.wrapped || wrapsAt now r.st⟩
-    | (st', none) => ⟨st', r.added, r.wrapped || wrapsAt now r.st⟩
+    | (st', some id) => ⟨st', r.added ++ [(id, f)], r.wrapped || wrapsAt now r.st, r.lost⟩
+    | (st', none) => ⟨st', r.added, r.wrapped || wrapsAt now r.st, r.lost⟩
   | .addId id f =>
     match addWithId id f r.st with
-    | (st', true) => ⟨st', r.added ++ [(id, f)], r.wrapped⟩
-    | (st', false) => ⟨st', r.added, r.wrapped⟩
-  | .del ids => ⟨(delete r.st ids).1, r.added, r.wrapped⟩
-  | .trimCount n => ⟨(trimByCount r.st n).1, r.added, r.wrapped⟩
-  | .trimMinId m => ⟨(trimByMinId r.st m).1, r.added, r.wrapped⟩
+    | (st', true) => ⟨st', r.added ++ [(id, f)], r.wrapped, r.lost⟩
+    | (st', false) => ⟨st', r.added, r.wrapped, r.lost⟩
+  | .del ids => ⟨(delete r.st ids).1, r.added, r.wrapped, r.lost⟩
+  | .trimCount n => ⟨(trimByCount r.st n).1, r.added, r.wrapped, r.lost⟩
+  | .trimMinId m => ⟨(trimByMinId r.st m).1, r.added, r.wrapped, r.lost⟩
+  | .restart => ⟨restart q r.st, r.added, r.wrapped, r.lost || decide ((restart q r.st).lastId ≠ r.st.lastId)⟩
 
-def Run.init : Run := ⟨Stream.new, [], false⟩
+def Run.init : Run := ⟨Stream.new, [], false, false⟩
 
 def run (q : Quirks) (ops : List Op) : Run := ops.foldl (step q) Run.init
 
@@ -323,6 +362,36 @@ def parseId (q : Quirks) (s : Bytes) : Option Id :=
     match parseU64Fast q.parseChecked m, parseU64Fast q.parseChecked sq with
     | some a, some b => some ⟨a, b⟩
     | _, _ => none
+
+/-- `StreamId::from_string_with_seq`: with the repair, a text without a dash is the millisecond and the
+    sequence number is `missing` (0 for XADD / XDEL / XREAD / a range start, 2^64-1 for a range end) -/
+def parseIdSeq (q : Quirks) (missing : Nat) (s : Bytes) : Option Id :=
+  if q.idIncomplete && !(s.contains 45) then (parseU64Fast q.parseChecked s).map fun ms => ⟨ms, missing⟩
+  else parseId q s
+
+/-- `packed.checked_add(1)`: the next ID among u64 pairs -/
+def nextId (a : Id) : Option Id :=
+  if a.seq + 1 < u64Mod then some ⟨a.ms, a.seq + 1⟩
+  else if a.ms + 1 < u64Mod then some ⟨a.ms + 1, 0⟩
+  else none
+
+/-- `packed.checked_sub(1)`: the previous ID among u64 pairs -/
+def prevId (a : Id) : Option Id :=
+  if a.seq > 0 then some ⟨a.ms, a.seq - 1⟩
+  else if a.ms > 0 then some ⟨a.ms - 1, u64Max⟩
+  else none
+
+/-- `StreamId::parse_range_bound`: a bound of XRANGE / XREVRANGE, possibly incomplete, possibly exclusive (`(`):
+    an exclusive start is the next ID, an exclusive end the previous one -/
+def parseBound (q : Quirks) (isStart : Bool) (s : Bytes) : Option Id :=
+  match s with
+  | 40 :: body =>
+    if q.idIncomplete then
+      match parseIdSeq q (if isStart then 0 else u64Max) body with
+      | some id => if isStart then nextId id else prevId id
+      | none => none
+    else parseId q s
+  | _ => parseIdSeq q (if isStart then 0 else u64Max) s
 
 end Code
 
@@ -423,14 +492,14 @@ def xadd (q : Quirks) (now : Nat) (ks : Keyspace) (args : List Bytes) : Keyspace
   else
     match args with
     | _ :: key :: idb :: rest =>
-      let f := fieldsOfArgs rest []
+      let f := if q.fieldsList then pairsOfArgs rest else fieldsOfArgs rest []
       if idb = [42] then
         let s := (lookup ks key).getD Code.Stream.new
         match xaddAuto q now f s with
         | (s', some id) => (store ks key s', .bulk id.text)
         | (_, none) => (ks, .err)
       else
-        match parseId q idb with
+        match parseIdSeq q 0 idb with
         | none => (ks, .err)
         | some id =>
           if id.ms = 0 ∧ id.seq = 0 then (ks, .err)
@@ -441,8 +510,8 @@ def xadd (q : Quirks) (now : Nat) (ks : Keyspace) (args : List Bytes) : Keyspace
             | (_, false) => (ks, .err)
     | _ => (ks, .err)
 
-def parseStart (q : Quirks) (b : Bytes) : Option Id := if b = [45] then some Id.zero else parseId q b
-def parseEnd (q : Quirks) (b : Bytes) : Option Id := if b = [43] then some Id.top else parseId q b
+def parseStart (q : Quirks) (b : Bytes) : Option Id := if b = [45] then some Id.zero else parseBound q true b
+def parseEnd (q : Quirks) (b : Bytes) : Option Id := if b = [43] then some Id.top else parseBound q false b
 
 /-- `Ok(None)` / `Ok(Some n)` / error of the COUNT clause of XRANGE -/
 def countClause (args : List Bytes) : Option (Option Nat) :=
@@ -524,7 +593,7 @@ def xreadId (q : Quirks) (ks : Keyspace) (key idb : Bytes) : Option Id :=
     | some x => some x.1
     | none => some Id.zero
   else if idb = [48] ∨ idb = [48, 45, 48] then some Id.zero
-  else parseId q idb
+  else parseIdSeq q 0 idb
 
 /-- `handle_xread` + `StorageEngine::xread` (streams without news are omitted) -/
 def xread (q : Quirks) (ks : Keyspace) (args : List Bytes) : Reply :=
@@ -541,6 +610,8 @@ def xread (q : Quirks) (ks : Keyspace) (args : List Bytes) : Reply :=
         match (keys.zip ids).mapM (fun (k, i) => (xreadId q ks k i).map fun a => (k, a)) with
         | none => .err
         | some kas =>
+          -- with the repair a COUNT of 0 is "no limit" (the handler passes `None` on)
+          let cnt := if q.readCountZeroAll && cnt == some 0 then none else cnt
           .streams ((kas.map fun (k, a) => (k, Code.rangeAfter (entriesOf ks k) a cnt)).filter fun p => !p.2.isEmpty)
 
 /-- the `max_len` of `handle_xtrim` (`none` = error reply) -/
@@ -569,13 +640,16 @@ def xtrim (ks : Keyspace) (args : List Bytes) : Keyspace × Reply :=
 /-- `handle_xdel` + `StorageEngine::xdel` -/
 def xdel (q : Quirks) (ks : Keyspace) (args : List Bytes) : Keyspace × Reply :=
   if args.length < 3 then (ks, .err)
-  else match (args.drop 2).mapM (parseId q) with
+  else match (args.drop 2).mapM (parseIdSeq q 0) with
     | none => (ks, .err)
     | some ids =>
       let key := args.getD 1 []
       match lookup ks key with
       | none => (ks, .int 0)
       | some s => let r := Code.delete s ids; (store ks key r.1, .int r.2)
+
+/-- SAVE + restart of the whole key space: every stream key comes back (an emptied one as an empty stream) -/
+def restartAll (q : Quirks) (ks : Keyspace) : Keyspace := ks.map fun (k, s) => (k, Code.restart q s)
 
 /-- dispatch on the (already upper-cased) command name, as `process_normal_command` does -/
 def handle (q : Quirks) (now : Nat) (ks : Keyspace) (args : List Bytes) : Option (Keyspace × Reply) :=
